@@ -314,36 +314,35 @@ func animOne(c *ev.Ctx, cs ev.Case, lossyAlpha bool) {
 			h.Opts.Lossless, h.Opts.AllowMixed = true, true
 		}
 	}
-	rawTail := !lossyAlpha && cs.Idx%8 == 5
-	rawOnly := rawTail && cs.Idx%16 == 13 // no picture goes through the optimiser at all
-	if rawTail {
-		h.Inputs, h.Canvases, h.Durations, h.Steps = h.Inputs[:1], h.Canvases[:1], h.Durations[:1], h.Steps[:1]
+	// Pre-encoded frames (AddRawFrame, AddFrame(NewBitstreamFrame)) in 1/8 of the lossless histories: alone, after one
+	// optimised picture, or in the middle of a history. What a raw frame must look like on the canvas follows from
+	// the container's compositing rules (reference compositor over the canvas shown before it); a picture added with
+	// AddFrame after raw frames must again play back as exactly that picture.
+	rawMode := ""
+	if !lossyAlpha && cs.Idx%8 == 5 {
+		rawMode = []string{"tail", "only", "mid", "mid"}[(cs.Idx/8)%4]
 	}
-	if rawOnly {
+	switch rawMode {
+	case "tail":
+		h.Inputs, h.Canvases, h.Durations, h.Steps = h.Inputs[:1], h.Canvases[:1], h.Durations[:1], h.Steps[:1]
+	case "only":
 		h.Inputs, h.Canvases, h.Durations, h.Steps = nil, nil, nil, nil
 	}
-	cs.Desc = fmt.Sprintf("canvas %dx%d %v opts=%+v", h.CW, h.CH, h.Steps, h.Opts)
 	var buf bytes.Buffer
 	opts := h.Opts
 	e := animation.NewEncoder(&buf, h.CW, h.CH, &opts)
-	for i, in := range h.Inputs {
-		if err := e.AddFrame(in, time.Duration(h.Durations[i])*time.Millisecond); err != nil {
-			c.Violate(cs, "addframe-error", nil, fmt.Sprintf("frame %d: %v", i, err), nil)
-			return
-		}
-	}
-	// one picture through AddFrame followed by pre-encoded frames through AddRawFrame: the first frame is a
-	// full-canvas key frame, so what the raw frames must look like on the canvas follows from the container's
-	// compositing rules alone (no mixing of raw frames with later optimised frames, whose meaning is not documented)
-	if rawTail {
+	var outCanv []*image.NRGBA
+	var outDur []int
+	var outSteps []string
+	addRaws := func(prev *image.NRGBA, n int) bool {
 		var model []refanim.Frame
-		if !rawOnly {
-			model = append(model, refanim.Frame{X: 0, Y: 0, W: h.CW, H: h.CH, Pix: img.Tight(h.Canvases[0])})
+		if prev != nil {
+			model = append(model, refanim.Frame{X: 0, Y: 0, W: h.CW, H: h.CH, Pix: img.Tight(prev)})
 		}
-		for k := 0; k < 1+r.Intn(3); k++ {
+		for k := 0; k < n; k++ {
 			fw, fh := 1+r.Intn(h.CW), 1+r.Intn(h.CH)
 			ox, oy := 2*r.Intn((h.CW-fw)/2+1), 2*r.Intn((h.CH-fh)/2+1)
-			viaAddFrame := rawOnly && r.Intn(2) == 0 // AddFrame(NewBitstreamFrame(..)): at the origin, alpha-blended, not disposed
+			viaAddFrame := r.Intn(3) == 0 // AddFrame(NewBitstreamFrame(..)): at the origin, alpha-blended, not disposed
 			if viaAddFrame {
 				ox, oy = 0, 0
 			}
@@ -354,7 +353,7 @@ func animOne(c *ev.Ctx, cs ev.Case, lossyAlpha bool) {
 			bs := riffChunks(file)["VP8L"]
 			if err != nil || bs == nil {
 				c.Fatal("cannot build a raw frame: %v", err)
-				return
+				return false
 			}
 			blend, dispose := r.Intn(2) == 0, r.Intn(3) == 0
 			if viaAddFrame {
@@ -375,21 +374,43 @@ func animOne(c *ev.Ctx, cs ev.Case, lossyAlpha bool) {
 			}
 			if err != nil {
 				c.Violate(cs, "addrawframe-error", nil, fmt.Sprintf("raw frame %d (%dx%d at %d,%d, via AddFrame=%v): %v", k, fw, fh, ox, oy, viaAddFrame, err), nil)
-				return
+				return false
 			}
 			model = append(model, refanim.Frame{X: ox, Y: oy, W: fw, H: fh, Pix: img.Tight(m), Blend: blend, Dispose: dispose})
-			h.Steps = append(h.Steps, fmt.Sprintf("raw[%dx%d@%d,%d blend=%v dispose=%v bitstreamframe=%v]", fw, fh, ox, oy, blend, dispose, viaAddFrame))
-			h.Durations = append(h.Durations, dur)
+			outSteps = append(outSteps, fmt.Sprintf("raw[%dx%d@%d,%d blend=%v dispose=%v bitstreamframe=%v]/%dms", fw, fh, ox, oy, blend, dispose, viaAddFrame, dur))
+			outDur = append(outDur, dur)
 		}
 		played := refanim.Play(h.CW, h.CH, model)
-		if !rawOnly {
+		if prev != nil {
 			played = played[1:]
 		}
 		for _, cv := range played {
-			h.Canvases = append(h.Canvases, &image.NRGBA{Pix: cv, Stride: h.CW * 4, Rect: image.Rect(0, 0, h.CW, h.CH)})
+			outCanv = append(outCanv, &image.NRGBA{Pix: cv, Stride: h.CW * 4, Rect: image.Rect(0, 0, h.CW, h.CH)})
 		}
-		cs.Desc = fmt.Sprintf("canvas %dx%d %v opts=%+v", h.CW, h.CH, h.Steps, h.Opts)
+		return true
 	}
+	if rawMode == "only" && !addRaws(nil, 1+r.Intn(3)) {
+		return
+	}
+	rawPos := -1
+	if rawMode == "tail" {
+		rawPos = 0
+	} else if rawMode == "mid" {
+		rawPos = r.Intn(len(h.Inputs))
+	}
+	for i, in := range h.Inputs {
+		if err := e.AddFrame(in, time.Duration(h.Durations[i])*time.Millisecond); err != nil {
+			cs.Desc = fmt.Sprintf("canvas %dx%d %v opts=%+v", h.CW, h.CH, append(outSteps, h.Steps[i:]...), h.Opts)
+			c.Violate(cs, "addframe-error", nil, fmt.Sprintf("frame %d: %v", i, err), nil)
+			return
+		}
+		outCanv, outDur, outSteps = append(outCanv, h.Canvases[i]), append(outDur, h.Durations[i]), append(outSteps, h.Steps[i])
+		if i == rawPos && !addRaws(h.Canvases[i], 1+r.Intn(3)) {
+			return
+		}
+	}
+	h.Canvases, h.Durations, h.Steps = outCanv, outDur, outSteps
+	cs.Desc = fmt.Sprintf("canvas %dx%d %v opts=%+v", h.CW, h.CH, h.Steps, h.Opts)
 	if err := e.Close(); err != nil {
 		c.Violate(cs, "close-error", nil, err.Error(), nil)
 		return
